@@ -25,7 +25,7 @@ func standaloneProduct(maxN int, visit func(idx int, sc *scen.Scenario, sig stri
 					}
 					for prep := 0; prep < 2; prep++ {
 						for post := 0; post < 3; post++ { // 0 action, 1 empty, 2 err
-							ns := scen.NodeSpec{Kind: kind, N: n, HasFB: fb != 0, ErrKind: idx % (scen.NumErrKinds + 1)} // incl. errors that wrap a context error
+							ns := scen.NodeSpec{Kind: kind, N: n, HasFB: fb != 0, ErrKind: scen.AllErrKinds[idx%len(scen.AllErrKinds)]} // incl. errors that wrap a context error, uncomparable error values, joined errors
 							v := scen.Visit{PrepErr: prep == 1, FirstOK: k, FBErr: fb == 2, Post: "go", PostErr: post == 2}
 							if post == 1 {
 								v.Post = ""
